@@ -33,6 +33,7 @@ map-derived parts of the output, loadability of the output.
 -/
 import CaddyModel.C16.Spec
 import CaddyModel.Gen.Glue
+import CaddyModel.Gen.MapRanges
 import CaddyModel.C16.Lemmas
 import CaddyModel.C16.Witness
 import CaddyModel.C16.LexProps
@@ -42,6 +43,7 @@ import CaddyModel.C16.BindProps
 import CaddyModel.C16.ServerOptsProps
 import CaddyModel.C16.AddrProps
 import CaddyModel.C16.NormalizeProps
+import CaddyModel.C16.MapSortProps
 
 namespace CaddyModel.C16
 
@@ -230,5 +232,34 @@ theorem directiveOrder_registered_matches_source :
 /-- the `order` global option the model of `History.lean` is about is registered as such -/
 theorem order_option_is_registered_matches_source :
     Gen.registeredGlobalOptions.contains "order" = true ∧ Gen.registeredDirectives.contains "handle_path" = true := by decide
+
+/-! ### regenerated fact: map ranges in the Caddyfile unmarshalers -/
+
+/-- the map ranges that collect into a slice WITHOUT a sort of that slice later in the same block,
+each with the reason it is (or is not) harmless -/
+def unsortedMapRangeExceptions : List (String × String) := [
+  -- "The resulting slice is not sorted": both callers sort (httptype.go `slices.Sort(hosts)`, tlsapp.go `sort.Strings(hostsNotHTTP)`)
+  ("caddyconfig/httpcaddyfile/directives.go:hostsFromKeys", "hostMap"),
+  ("caddyconfig/httpcaddyfile/directives.go:hostsFromKeysNotHTTP", "hostMap"),
+  -- appends to `al` (sorted by `slices.Sort(al)` in the enclosing block) AND to internalAP.SubjectsRaw, which is
+  -- NOT sorted: known finding `nondeterministic-output:internal-policy-subjects`
+  ("caddyconfig/httpcaddyfile/tlsapp.go:buildTLSApp", "httpsHostsSharedWithHostlessKey")]
+
+/-- every map range in caddyconfig/httpcaddyfile/*.go and modules/**/caddyfile.go that appends to a
+slice either (a) appends the map KEY itself and is followed by a plain sort of that slice
+(`sort.Strings` / `slices.Sort`: the sort key is the map key, injective — `sortByKey_perm_invariant`
+applies), or (b) is one of the listed exceptions.  A range that sorts by anything else
+(`sort.Slice` with a comparator, an appended derived value) makes this theorem fail. -/
+theorem map_ranges_sorted_by_key_matches_source :
+    Gen.caddyfileMapRanges.all (fun r =>
+      r.2.2.1 == "noappend" ||
+      (r.2.2.1 == "appendkey" && (r.2.2.2 == "sort.Strings" || r.2.2.2 == "slices.Sort")) ||
+      unsortedMapRangeExceptions.contains (r.1, r.2.1)) = true := by decide
+
+/-- the `copy_headers` collection of forward_auth is among them, in the shape `MapSort.lean` models -/
+theorem copy_headers_range_matches_source :
+    Gen.caddyfileMapRanges.contains
+      ("modules/caddyhttp/reverseproxy/forwardauth/caddyfile.go:parseCaddyfile", "headersToCopy", "appendkey", "sort.Strings") = true := by
+  decide
 
 end CaddyModel.C16
